@@ -49,7 +49,7 @@ def run(tier, wd):
     rep.cov["lexer_strings"] = len(runs)
     rep.cov["lexer_runs_on_library"] = len(rows)
     # ---- lexical, whole strings: random strings over the spec alphabet, validated by TLC against SpecLexer.tla (binding B)
-    alphabet = list("  \t[]()|.-=<>") + list("AQXOPTIONSazbo18_#~") + ["...", "--", "=<", "-a", "OPTIONS", "--out", "X"]
+    alphabet = list("  \t[]()|.-=<>") + list("AQXOPTIONSazbo18_#~") + [rnd.choice("BCDEFGHIJKLMRUVWYZ"), rnd.choice("cdefghijklmnpqrstuvwxy"), rnd.choice("0234567"), "9", "0"] + ["...", "--", "=<", "-a", "OPTIONS", "--out", "X"]
     import itertools
     strs = set()
     while len(strs) < (1500 if q else 60000):
@@ -182,6 +182,10 @@ def run(tier, wd):
                      {"names": ["sub"], "path": "app sub", "spec": "", "opts": [], "intopt": "", "args": [], "subs": [], "action": True}]
             vcases.append({"nodes": nodes, "version": "v version", "policy": rnd.choice(["continue", "exit", "panic"]), "argv": argv})
             vmeta.append((m, s_))
+            if argv in (["--help"], ["sub"]):
+                # ... and on an application object whose earlier Run was already rejected for that spec
+                vcases.append({"nodes": nodes, "version": "v version", "policy": rnd.choice(["continue", "exit", "panic"]), "argv": argv, "prerun": [[], ["x"]]})
+                vmeta.append((m, s_))
     vres = core.run_harness(binpath, "tree", vcases, sub)
     for (m, s_), c, r in zip(vmeta, vcases, vres):
         rep.cov["evaluations"] += 1
@@ -190,8 +194,8 @@ def run(tier, wd):
         if r.get("hang") or r.get("crash"):
             rep.violation("application spec %r, argv %s: %s" % (s_, c["argv"], r), {"engine": "treeparse", "case": c})
         elif not r.get("panic", "").startswith("error:Parse error") or r["log"] or r.get("version"):
-            rep.violation("application with the ill-formed spec %r run with %s: Run must panic with the spec error; panic=%r, ran %s, version printed=%s" % (
-                s_, c["argv"], r.get("panic"), r["log"], r.get("version")), {"engine": "treeparse", "case": c})
+            rep.violation("application with the ill-formed spec %r run with %s%s: Run must panic with the spec error; panic=%r, ran %s, version printed=%s" % (
+                s_, c["argv"], " after earlier runs %s" % c["prerun"] if c.get("prerun") else "", r.get("panic"), r["log"], r.get("version")), {"engine": "treeparse", "case": c})
     rep.cov["application_spec_errors_with_requests"] = len(vcases)
     rep.cov["kind_sequences"] = len(seqs)
     rep.cov["traces_validated_against_impl"] = len(rows) + len(strs) + len(seqs)
